@@ -65,6 +65,21 @@ def run(cx):
         cx.guard('C16.G1', t, {'same-query': r'^eq:Query\(\^arg2,arg2\)$|^eq:Query\(arg2,\^arg2\)$', 'same-case': r'^Name::eq_case\(arg2\.name,\^arg2\.name\)$|^Name::eq_case\(\^arg2\.name,arg2\.name\)$'}, fn=c1)
         cx.check('C16.G1', len(t) >= 1, c1.path, 'ret', 'true-return-present', str(len(t)))
 
+    # ---------------------------------------------------------------- S2 what the receive loop is configured with
+    # the accept guards of send() read self.case_randomization, self.name_server and self.request: they mean what the property says
+    # only if UdpRequest::new fills them from the request's own options / the stream's configured peer / the request itself
+    # (e.g. deriving the case flag from "an original query was recorded" silently disables the 0x20 check for hand-built requests)
+    un = cx.fn('C16.S2', 'hickory_net::udp::udp_client_stream::UdpRequest::new')
+    if un:
+        cons = cx.constructions(un, 'hickory_net::udp::udp_client_stream::UdpRequest')
+        cx.check('C16.S2', len(cons) == 1, un.path, 'construct', 'single-construction', str(len(cons)))
+        want = {'case_randomization': r'^DnsRequest::options\(arg1\)\.case_randomization$', 'name_server': r'^arg2\.name_server$', 'request': r'^arg1$',
+                'signer': r'^phi\(Option::None\|arg2\.signer\)$|^arg2\.signer$'}
+        for (bi, si, loc), flds in cons:
+            for k, rx in want.items():
+                ok = bool(re.search(rx, flds.get(k, '')))
+                cx.check('C16.S2', ok, un.path, 'field:' + k, 'receive-loop-input-provenance:' + k, flds.get(k, 'missing')[:160], loc,
+                         sample={'fn': 'UdpRequest::new', 'field': k, 'value': flds.get(k, '')[:80], 'holds': ok})
     # ---------------------------------------------------------------- G2 multiplexer ids
     sm = cx.fn('C16.G2', '<hickory_net::xfer::dns_multiplexer::DnsMultiplexer<S> as hickory_net::xfer::DnsRequestSender>::send_message')
     if sm:
